@@ -563,7 +563,7 @@ def run(repo, check):
     check.run_rule(c05.rule_state_mode, repo, 'C06.R2')
     check.run_rule(rule_r3, repo)
     from sa.rules import c07
-    r4 = c07.rule_r6(repo)
+    r4 = check.call(c07.rule_r6, repo)
     r4.rule = 'C06.R4'
     r4.title = 'a bitmap is built from the bits of the subset being processed, never from subset 0 (shared with C07.R6)'
     for f in r4.findings:
